@@ -105,6 +105,12 @@ def kwargs_job(job):
     seen = []
 
     def rec(source, **kw):
+        # like minify() itself, read the preserve lists once (whatever kind of iterable they are)
+        kw = dict(kw)
+        for key in ('preserve_locals', 'preserve_globals'):
+            v = kw.get(key)
+            if v is not None and not isinstance(v, str):
+                kw[key] = list(v)
         seen.append(kw)
         return ''
     saved = cli.minify
@@ -114,11 +120,12 @@ def kwargs_job(job):
     sys.argv = ['pyminify', 'x.py'] + argv_of(job['flags'], job['pl_occ'], job['pg_occ'])
     sys.stderr = io.StringIO()
     out = {'id': job['id'], 'flags': job['flags'], 'pl_occ': strip_occ(job['pl_occ']), 'pg_occ': strip_occ(job['pg_occ']),
-           'called': False, 'exit': 0, 'kwargs': {}, 'pl_seen': [], 'pg_seen': []}
+           'called': False, 'exit': 0, 'kwargs': {}, 'pl_seen': [], 'pg_seen': [], 'pl_seen2': [], 'pg_seen2': [], 'calls': 0}
     try:
         try:
             a = cli.parse_args()
             cli.do_minify(b'', 'x.py', a)
+            cli.do_minify(b'', 'y.py', a)           # a run over several modules calls do_minify once per module with the same parsed arguments
         except SystemExit as e:
             out['exit'] = e.code if isinstance(e.code, int) else 1
         except BaseException as e:  # noqa
@@ -147,6 +154,11 @@ def kwargs_job(job):
         out['kwargs'] = k
         out['pl_seen'] = list(kw.get('preserve_locals') or [])
         out['pg_seen'] = list(kw.get('preserve_globals') or [])
+        # the second module of the run must be given the same names
+        kw2 = seen[1] if len(seen) > 1 else {}
+        out['pl_seen2'] = list(kw2.get('preserve_locals') or [])
+        out['pg_seen2'] = list(kw2.get('preserve_globals') or [])
+        out['calls'] = len(seen)
     return out
 
 
